@@ -79,6 +79,45 @@ CHECKS = {
         note="Tables are built with OutputManager's row builders on a design-like namespace around a real GHE.",
         ref="DESIGN.md section 3 C19",
     ),
+
+    "C10": dict(
+        technique="Hypothesis PBT with harness-side recording wrappers; invariants on the cell table + closed heat balance + differential against an independent finer-mesh radial solver",
+        text="Generated single-U boreholes (radius, pipe, spacing, H 20-400 m, media, laminar..turbulent flow): tiling, fluid "
+             "thermal mass, layer resistance = R_b*, closed heat balance to 1e-6, monotone/finite/bounded response, and the end "
+             "value against an own implicit solver with 2x cells per layer and dt = 30 s (0.5 %). Sampling.",
+        note="Heat balance read as stored + heat crossing into the fixed far-field cell (see DESIGN.md); wrappers around "
+             "fill_radial_cells and dgtsv are installed in the check process only.",
+        ref="DESIGN.md section 3 C10",
+    ),
+    "C11": dict(
+        technique="Hypothesis PBT; structural oracle for the STS/LTS join, round-trip at stored heights, algebraic laws, differential against an analytical finite-line-source reference",
+        text="combine_sts_lts on generated axes (both branches), grab_g_function on real GHE objects with a stored radius "
+             "different from the borehole's, interpolation at stored heights for 1..5-height families, radius-correction "
+             "algebra, UHTR curves of generated fields (1..150 boreholes) against the FLS superposition (1e-4 / 1e-6 relative), "
+             "MIFT single borehole within 20 %. Sampling. KF-C11-1 recorded for irregular fields.",
+        note="O4 quadrature self-tested against adaptive quad (1e-13); exact abscissa ties excluded.",
+        ref="DESIGN.md section 3 C11",
+    ),
+    "C15": dict(
+        technique="Hypothesis PBT; independent volume/resistance formulas and a fresh-object recomputation as oracle",
+        text="Generated double-U (series/parallel) and coaxial exchangers: equivalent radii vs independently computed fluid and "
+             "pipe volumes (1e-12), fit in the borehole, R_fp vs the original's convective+pipe resistance (1e-4), R_b* as "
+             "reported and recomputed from the final state within 0.1 %, single-U identity. Sampling. The R_b* and part of the "
+             "R_fp clauses fail on the unchanged tree (KF-C15-1, KF-C15-2), so only violations with a different signature are "
+             "reported for them.",
+        note="Installed pygfunction 2.3.1; 'combined resistance' taken from the original's own u_tube_volumes()/"
+             "concentric_tube_volumes().",
+        ref="DESIGN.md section 3 C15",
+    ),
+    "C20": dict(
+        technique="exhaustive enumeration over N=1..400 x Hypothesis-drawn flows/fluids + differential pairs (BOREHOLE v vs SYSTEM N v) through real search objects",
+        text="retrieve_flow of all four search classes for every N in 1..400, and calculate_excess of real search objects "
+             "under both flow specifications for the same field (all pipe types): mass flow, system flow, R_b* and every "
+             "simulated temperature agree.",
+        note="L2 seam (surrogate long-time g) for the pairs; Bisection2D/ZD instances are made by re-classing a Bisection1D "
+             "built with search=False.",
+        ref="DESIGN.md section 3 C20",
+    ),
 }
 
 NOT_YET = {}
